@@ -103,6 +103,12 @@ CLAIMED = {
             "Every listed site domain (documented patterns, bundled YouTube and shortener lists) and its look-alikes are run through the predicates in five forms with decoy "
             "texts in userinfo / path / query / fragment; the trace spec compares each answer with whole-label membership evaluated by TLC and with the decoy-free answer.",
             "Trusted: TLC; the documented site patterns transcribed in harness/checks/c18.py; bundled lists are data."),
+    "C19": ("DESIGN.md section 4 / C19",
+            "URL-building state machine (AppendSegment / AppendItem / SetFragment / ToggleTrailingSlash over each platform's route vocabulary) explored by TLC; its states, rendered by TLC, replayed into 30 parser / extractor / predicate / converter calls each; TLA+ contract (no unexpected exception, documented record type, ids validate, re-parse round trip, normalize idempotent) judged by the trace spec",
+            "Every URL the machine can build (bounded depth, plus random deeper states and foreign strings) goes through all functions of the facebook, youtube, twitter, instagram, "
+            "telegram and google modules; the trace spec checks totality, documented result types, the modules' own validators on returned ids, and that re-parsing the canonical URL "
+            "gives the same record.",
+            "Trusted: TLC; the Documented type table in C19.tla; records are compared through their textual field dump."),
     "C20": ("DESIGN.md section 4 / C20",
             "ensure/force/strip as TLA+ operators with the five laws model checked by TLC over all short strings x protocols; TLC-enumerated strings and builder argument combinations replayed into the real helpers; TLA+ contracts (query decodes to retained arguments, single-slash join, fragment, read-back, pathsplit) judged by the trace spec; two recorded known findings",
             "TLC checks the protocol laws on the model (and that they can only fail on nested-protocol inputs), and judges every observed result of "
